@@ -651,7 +651,9 @@ impl<'a> Socket<'a> {
                 if state.retry >= self.retry_config.request_retries {
                     net_debug!("DHCP request retries exceeded, restarting discovery");
                     self.reset();
-                    return Ok(());
+                    // Send the DISCOVER right away: returning without emitting would leave
+                    // `poll_at` in the past after a dispatch that transmitted nothing.
+                    return self.dispatch(cx, emit);
                 }
 
                 dhcp_repr.message_type = DhcpMessageType::Request;
@@ -678,8 +680,9 @@ impl<'a> Socket<'a> {
                 if state.expires_at <= now {
                     net_debug!("DHCP lease expired");
                     self.reset();
-                    // return Ok so we get polled again
-                    return Ok(());
+                    // Send the DISCOVER right away: returning without emitting would leave
+                    // `poll_at` in the past after a dispatch that transmitted nothing.
+                    return self.dispatch(cx, emit);
                 }
 
                 if now < state.renew_at || state.rebinding && now < state.rebind_at {
